@@ -18,7 +18,17 @@ from basana.core.pair import Pair, PairInfo
 from symx import And, Implies
 from symx.run import Job
 from .disp import run_dispatcher
-from .exch import run as xrun
+
+
+def xrun(coro):
+    """run an exchange coroutine to completion outside the dispatcher (on its own loop: nothing in this check
+    assumes that an exchange call completes without yielding)"""
+    loop = asyncio.new_event_loop()
+    try:
+        return loop.run_until_complete(coro)
+    finally:
+        loop.close()
+
 
 T0 = datetime.datetime(2020, 1, 1, tzinfo=datetime.timezone.utc)
 T_HI = T0 + datetime.timedelta(days=30)
@@ -44,10 +54,10 @@ META = dict(
 )
 
 
-def build(ctx, times, mc, npairs, nbars, reg_order, nsusp, log, merged=False):
+def build(ctx, times, mc, npairs, nbars, reg_order, nsusp, log, merged=False, query=False, usd=100000):
     """builds the stack and the strategy; returns (dispatcher, exchange, result dict)"""
     d = bs.backtesting_dispatcher(max_concurrent=mc)
-    e = bex.Exchange(d, {"USD": Decimal(100000), "AAA": Decimal(100), "BBB": Decimal(100), "CCC": Decimal(100)},
+    e = bex.Exchange(d, {"USD": Decimal(usd), "AAA": Decimal(100), "BBB": Decimal(100), "CCC": Decimal(100)},
                      liquidity_strategy_factory=liquidity.InfiniteLiquidity, default_pair_info=PairInfo(0, 2))
     pairs = PAIRS[:npairs]
     srcs = {}
@@ -81,9 +91,20 @@ def build(ctx, times, mc, npairs, nbars, reg_order, nsusp, log, merged=False):
         res["names"][created.id] = name
         return created.id
 
+    async def look_around(pair):
+        # read-only queries a strategy makes before deciding (none of them is a suspension point of the strategy);
+        # only the first pair's handler looks around, so a query that yields lets the other handler overtake it
+        if query:
+            await e.get_balances()
+            await e.get_balance("USD")
+            await e.get_bid_ask(pair)
+            await e.get_pair_info(pair)
+            await e.get_open_orders()
+
     async def on_bar_first(ev):
         for _ in range(nsusp):
             await asyncio.sleep(0)
+        await look_around(pairs[0])
         k = sum(1 for x in res["seen_bars"] if x[0] == 0)
         res["seen_bars"].append((0, ev.when))
         last = pairs[-1]
@@ -175,7 +196,7 @@ def outcome(e, res):
     return bal, fills, final
 
 
-def scenario(ctx, npairs=3, nbars=2, max_mc=4, clause="lookahead", merged=False):
+def scenario(ctx, npairs=3, nbars=2, max_mc=4, clause="lookahead", merged=False, query=False, usd=100000):
     mc = ctx.int("max_concurrent", 1, max_mc)
     times = []
     for p in range(npairs):
@@ -196,7 +217,7 @@ def scenario(ctx, npairs=3, nbars=2, max_mc=4, clause="lookahead", merged=False)
                 ctx.assume(times[npairs - 1][k] <= times[0][k + 1])
     reg_order = ctx.choice("registration_order", 3)
     nsusp = ctx.choice("suspension_points", 3) if clause == "lookahead" else 0
-    d, e, res = build(ctx, times, mc, npairs, nbars, reg_order, nsusp, None, merged)
+    d, e, res = build(ctx, times, mc, npairs, nbars, reg_order, nsusp, None, merged, query, usd)
     run_dispatcher(d)
     # ---- no look-ahead: every fill is later than the submission of its order
     for oid, when, amt, q in res["fills"]:
@@ -209,14 +230,14 @@ def scenario(ctx, npairs=3, nbars=2, max_mc=4, clause="lookahead", merged=False)
     ctx.cover("run completed")
     if clause == "determinism":
         # 2-safety by self-composition: same inputs, max_concurrent = 50 (the pool never fills)
-        d2, e2, res2 = build(ctx, times, 50, npairs, nbars, reg_order, 0, None, merged)
+        d2, e2, res2 = build(ctx, times, 50, npairs, nbars, reg_order, 0, None, merged, query, usd)
         run_dispatcher(d2)
         a, b = outcome(e, res), outcome(e2, res2)
         ctx.prove(a[1] == b[1], "C03 the fill history does not depend on max_concurrent", info=(a[1], b[1]))
         ctx.prove(a[2] == b[2], "C03 final order states do not depend on max_concurrent", info=(a[2], b[2]))
         ctx.prove(a[0] == b[0], "C03 final balances do not depend on max_concurrent", info=(a[0], b[0]))
         # repeated run with the same max_concurrent
-        d3, e3, res3 = build(ctx, times, mc, npairs, nbars, reg_order, 0, None, merged)
+        d3, e3, res3 = build(ctx, times, mc, npairs, nbars, reg_order, 0, None, merged, query, usd)
         run_dispatcher(d3)
         c = outcome(e3, res3)
         ctx.prove(a == c, "C03 repeated runs give identical fills and balances")
@@ -282,7 +303,6 @@ def repeated_runs(ctx, norders=3):
     ctx.prove(a[1] == b[1], "C03 repeated runs give identical final balances (runs differ in the random order ids only)",
               info=(a[1], b[1]))
     ctx.cover("run completed")
-    ctx.cover("the handler pool was saturated")
 
 
 def jobs(tier):
@@ -296,6 +316,11 @@ def jobs(tier):
     for npairs in (2, 3):
         js.append(Job("look-ahead %d pairs x 2 bars, one merged bar source" % npairs, "scenario",
                       dict(npairs=npairs, nbars=2, max_mc=3, clause="lookahead", merged=True), **big))
+    # handlers that query the account before ordering, funds that cover only one of two orders of an instant
+    for npairs in ((2,) if tier == "quick" else (2, 3)):
+        js.append(Job("determinism %d pairs x 2 bars, handlers query the exchange first, tight funds" % npairs,
+                      "scenario", dict(npairs=npairs, nbars=2, max_mc=4, clause="determinism", query=True, usd=20),
+                      **big))
     js.append(Job("repeated runs, 3 competing orders, any traversal count", "repeated_runs", dict(norders=3),
                   validate_every=5, sample_every=10))
     if tier == "thorough":
